@@ -152,13 +152,22 @@ def run(ck, ctx):
         order = ["betaE", "alt", "Eshow100PeV", "init_lat", "init_long"]
         eff = {k: [e for e in r.effects if e.kind == k] for k in
                ("dask-from-sequence", "dask-map", "dask-compute", "dask-combinator", "seq-map")}
+        # map_partitions(f) with f mapping the elements of its partition one by one (one result per element, each from
+        # its own element, nothing taken from the partition as a whole) is an element-wise map in another spelling
+        ewise = [e for e in eff["dask-combinator"] if e.data.get("name") == "map_partitions" and
+                 e.data.get("elementwise") is True]
         ck.ob("R10.3", "the batch call runs a from_sequence -> map -> compute pipeline, each stage once per pipeline",
-              len(eff["dask-from-sequence"]) >= 1 and len(eff["dask-from-sequence"]) == len(eff["dask-map"])
+              len(eff["dask-from-sequence"]) >= 1 and len(eff["dask-from-sequence"]) == len(eff["dask-map"]) + len(ewise)
               == len(eff["dask-compute"]), r.value, fnn, ", ".join(f"{k}: {len(v)}" for k, v in eff.items()))
         for e in eff["dask-combinator"]:
+            if e in ewise:
+                continue
             ck.ob("R10.3", f"no bag combinator besides map/compute [.{e.data.get('name')}]", False, e.node, fnn,
-                  "combinators such as fold / distinct / repartition / random_sample do not preserve the "
-                  "one-result-per-event order", construct=f"{fnn}: bag combinator {e.data.get('name')}")
+                  ("the partition function looks at its partition as a whole (its first element, its length, a "
+                   "position): what an event gets depends on where the partition boundaries fall"
+                   if e.data.get("name") == "map_partitions" else
+                   "combinators such as fold / distinct / repartition / random_sample do not preserve the "
+                   "one-result-per-event order"), construct=f"{fnn}: bag combinator {e.data.get('name')}")
         for e in eff["dask-from-sequence"]:
             kws = e.data.get("kwargs", [])
             ck.ob("R10.3", "from_sequence only sets the partitioning", set(kws) <= {"partition_size", "npartitions"},
